@@ -946,19 +946,21 @@ class ProxyLayer:
     the assignment form (= += -= with and without noalias) and the orientation of the target are drawn at random.
     Targets are dedicated containers that never occur on a right-hand side (noalias is always legal).
 
-    Kept out (constructs the C++ type checker rejects or known findings, see EXCLUDED and tools/c01.py _defects):
-    an off-diagonal sub-range of a diagonal matrix (known finding C01-RANGEDIAG: only a==c, b==d is generated),
-    diag of anything containing a product (known finding C01-DIAGPROD), triangular views (matrix expressions only as the
-    first operand of a product)."""
+    Kept out: the strata of EXCLUDED_STRATA (no member compiles: proxies other than trans of a concatenation, rows /
+    columns of a diagonal matrix, diag of a product = known finding C01-DIAGPROD), an off-diagonal sub-range of a
+    diagonal matrix (known finding C01-RANGEDIAG: only blocks with a==c, b==d are drawn for the diagonal forms; the
+    off-diagonal case is pinned in the regression stream of tools/c01.py), triangular views (a matrix expression only as
+    the first operand of a product: triangular stream).  Members of the remaining strata that the type checker rejects
+    (e.g. outer_prod(u,v) + row-major matrix assigned to a column-major target) are filtered by a syntax-only compiler
+    pass, recorded in the evidence and redrawn as the stratum's CORE member, which must compile."""
     SHAPES = [(3, 5), (5, 3), (4, 4), (2, 4), (4, 2)]       # closed under transposition
     FORMS = ["dense_r", "dense_c", "repeat", "outer", "diagonal", "identity", "constant", "prod", "concat_right",
              "concat_down", "broadcast", "repeat_broadcast"]
     PROXIES = ["subrange", "rows", "columns", "row", "column", "diag", "trans"]
     WRAPS = ["none", "none", "scale", "unary", "add_dense", "dense_add", "minus", "binary", "add_same", "add_scalar"]
 
-    def __init__(self, rng, excluded=None):
+    def __init__(self, rng):
         self.rng = rng; self.decls = []; self.orient = {}; self.stats = {}
-        self.excluded = excluded if excluded is not None else EXCLUDED
         self.vec_by_size = {}; vid = 0
         for n in (2, 3, 4, 5):
             self.vec_by_size[n] = []
@@ -1101,6 +1103,10 @@ class ProxyLayer:
             if u < 0.7: return True, ("VAdd", ("VScale", self.const(), e), self.vec(n, True) if n in self.vec_by_size else ("VConst", n, 1))
             return True, ("VUn", "FSqr", e)
         r, c = mshape(e); u = rng.random()
+        if "MDiagM" in heads_under(e):          # a diagonal matrix below: only diagonal blocks (C01-RANGEDIAG), no rows / columns
+            if u < 0.3 and r >= 1 and c >= 1:
+                a, b = self.interval(min(r, c), "inner"); return False, ("MRange", e, a, b, a, b)
+            u = max(u, 0.5)
         if u < 0.2 and r >= 1 and c >= 1:
             a, b = self.interval(r, "inner"); c0, d = self.interval(c, "inner"); return False, ("MRange", e, a, b, c0, d)
         if u < 0.35 and r >= 1: a, b = self.interval(r, "inner"); return False, ("MRows", e, a, b)
@@ -1123,62 +1129,72 @@ class ProxyLayer:
         return ("SAssignM", na, o, t, e)
 
     def strata(self):
-        return [(p, f, tr) for p in self.PROXIES for f in self.FORMS for tr in (False, True)]
+        """every (proxy, form, transposed) combination that the library supports at all (EXCLUDED_STRATA lists the others)"""
+        return [(p, f, tr) for p in self.PROXIES for f in self.FORMS for tr in (False, True) if (p, f) not in EXCLUDED_STRATA]
 
-    def program(self, strata, nested=0.2):
-        """initialisation (element sets, quiet) + one accepted statement per stratum (a stratum that cannot be realised,
-        e.g. a diagonal matrix of non-square shape, is skipped); returns (stmts, quiet)"""
+    def draw(self, stratum, core=False, nested=0.2):
+        """one statement of the stratum.  core: the plainest member (no element-wise wrapper beyond a scalar multiple or a
+        unary function, row-major target, plain `=`): these are required to compile"""
+        rng = self.rng; p, f, tr = stratum
+        for _try in range(50):
+            r = self.expression(p, f, tr, wrapname=rng.choice(["none", "scale", "unary"]) if core else None)
+            if r is None: continue
+            isvec, e = r
+            if not core and rng.random() < nested: isvec, e = self.nest(isvec, e)
+            st = self.statement(isvec, e)
+            if core:
+                st = (st[0], rng.random() < 0.5, "OpSet", st[3], st[4])
+                if st[0] == "SAssignM" and st[3][0] == "MRange": st = st[:3] + (("MRange", self.tm[False]) + st[3][2:],) + st[4:]
+                elif st[0] == "SAssignM": st = st[:3] + (self.tm[False],) + st[4:]
+            return st
+        raise RuntimeError("stratum %r cannot be realised" % (stratum,))
+
+    def init_statements(self):
+        """element sets establishing the initial store (emitted quietly): operand vectors have pairwise distinct entries
+        (a shifted or transposed index always changes the value), operand matrices random, targets 1"""
         rng = self.rng; stmts = []
-        s = Env()
+        tvid = self.tv[1]; tmids = set(t[1] for t in self.tm.values())
         for d in self.decls:
             if d[0] == "v":
-                s.v[d[1]] = [0] * d[2]
-                for i in range(d[2]): stmts.append(("SSetV", d[1], i, rng.choice([-4, -3, -2, -1, 1, 2, 3, 4]) if d[2] < 5 or d[1] != self.tv[1] else 0))
+                vals = [1] * d[2] if d[1] == tvid else rng.sample([-5, -4, -3, -2, -1, 1, 2, 3, 4, 5], d[2])
+                stmts += [("SSetV", d[1], i, vals[i]) for i in range(d[2])]
             else:
-                s.m[d[1]] = [[0] * d[3] for _ in range(d[2])]
-                istarget = any(d[1] == t[1] for t in self.tm.values())
-                for i in range(d[2]):
-                    for j in range(d[3]):
-                        stmts.append(("SSetM", d[1], i, j, 1 if istarget else rng.randint(-4, 4)))
-        # vectors with pairwise distinct entries: an index shift always changes the value
-        for n, l in self.vec_by_size.items():
-            for x in l:
-                vals = rng.sample([-5, -4, -3, -2, -1, 1, 2, 3, 4, 5], n)
-                for i in range(n): stmts[[k for k, st in enumerate(stmts) if st[0] == "SSetV" and st[1] == x[1] and st[2] == i][0]] = ("SSetV", x[1], i, vals[i])
-        for st in stmts: wr(s, ("v", st[1], st[2]) if st[0] == "SSetV" else ("m", st[1], st[2], st[3]), st[-1])
-        quiet = len(stmts)
-        for (p, f, tr) in strata:
-            for _try in range(6):
-                r = self.expression(p, f, tr)
-                if r is None: continue
-                isvec, e = r
-                if rng.random() < nested: isvec, e = self.nest(isvec, e)
-                if excluded_term(e, self.excluded): continue
-                st = self.statement(isvec, e)
-                try: s2, _ = exec_stmt(s, st)
-                except Reject:
-                    st = st[:2] + ("OpSet",) + st[3:]
-                    try: s2, _ = exec_stmt(s, st)
-                    except Reject: continue
-                s = s2; stmts.append(st); self.count("%s(%s%s)" % (p, "trans " if tr else "", f)); break
-        return stmts, quiet
+                stmts += [("SSetM", d[1], i, j, 1 if d[1] in tmids else rng.randint(-4, 4)) for i in range(d[2]) for j in range(d[3])]
+        return stmts
+
+    def settle(self, init, stmts):
+        """the statements in order with the documented store threaded through; a compound form whose result would leave
+        the exact range becomes a plain assignment"""
+        s = Env()
+        for d in self.decls:
+            if d[0] == "v": s.v[d[1]] = [0] * d[2]
+            else: s.m[d[1]] = [[0] * d[3] for _ in range(d[2])]
+        for st in init: wr(s, ("v", st[1], st[2]) if st[0] == "SSetV" else ("m", st[1], st[2], st[3]), st[-1])
+        out = []
+        for st in stmts:
+            try: s2, _ = exec_stmt(s, st)
+            except Reject:
+                st = st[:2] + ("OpSet",) + st[3:]; s2, _ = exec_stmt(s, st)
+            s = s2; out.append(st)
+        return out
 
 
-# constructs of the proxy layer that the unchanged tree rejects at compile time (probed with tools/c01.py --probe-proxy;
-# each entry: a predicate name of excluded_term and the reason), plus the two known findings
-EXCLUDED = []
+# strata of the proxy layer that do not exist in the library (the C++ type checker rejects every member; probed on the
+# pinned tree with all element-wise wrappers): proxy -> form -> reason
+EXCLUDED_STRATA = {}
+for _p in ("subrange", "rows", "columns", "row", "column", "diag"):
+    for _f in ("concat_right", "concat_down"):
+        EXCLUDED_STRATA[(_p, _f)] = "matrix_concat has no rule in any proxy optimizer and is not a dense proxy: only trans(A|B), trans(A&B) exist"
+for _p in ("rows", "columns"):
+    for _f in ("diagonal", "identity"):
+        EXCLUDED_STRATA[(_p, _f)] = "matrix_rows_optimizer<diagonal_matrix> is a commented-out stub: rows()/columns() of a diagonal matrix do not compile"
+EXCLUDED_STRATA[("diag", "prod")] = "known finding C01-DIAGPROD: matrix_diagonal_optimizer<matrix_matrix_prod> is a commented-out stub"
 
 
-def heads_under(t, stop=()):
+def heads_under(t):
     """constructor heads of t and its sub-terms"""
     out = set()
     if isinstance(t, tuple) and t and isinstance(t[0], str):
         out.add(t[0])
         for x in t[1:]: out |= heads_under(x)
     return out
-
-
-def excluded_term(e, excluded):
-    for pred in excluded:
-        if pred(e): return True
-    return False
